@@ -18,7 +18,6 @@ import (
 	"math"
 	"os"
 	"path/filepath"
-	"sort"
 	"time"
 
 	"github.com/Workiva/frugal/compiler/parser"
@@ -47,8 +46,6 @@ type resp struct {
 	Msg      string                 `json:"msg,omitempty"`
 	Panic    string                 `json:"panic,omitempty"`
 	Rules    []string               `json:"rules,omitempty"`
-	Name     string                 `json:"name,omitempty"`
-	Includes map[string]interface{} `json:"includes,omitempty"`
 }
 
 type L = []interface{}
@@ -229,22 +226,30 @@ func parseRaw(text []byte) resp {
 	return resp{Code: 0, Ast: encFrugal(f)}
 }
 
-func encTree(f *parser.Frugal, seen map[*parser.Frugal]bool) (L, map[string]interface{}) {
-	incs := map[string]interface{}{}
-	if seen[f] {
-		return encFrugal(f), incs
+// encTree dumps a parsed file and, recursively, its resolved includes (a file reached along two
+// paths is dumped twice; include cycles are errors, so this terminates). Keys in order of first
+// occurrence among the file's includes.
+func encTree(f *parser.Frugal) L {
+	incs := L{}
+	done := map[string]bool{}
+	for _, inc := range f.Includes {
+		v := inc.Value
+		if len(v) < 7 {
+			continue
+		}
+		key := filepath.Base(v[:len(v)-7])
+		if done[key] {
+			continue
+		}
+		done[key] = true
+		if sub, ok := f.ParsedIncludes[key]; ok {
+			incs = append(incs, L{hs(key), encTree(sub)})
+		}
 	}
-	seen[f] = true
-	names := make([]string, 0, len(f.ParsedIncludes))
-	for n := range f.ParsedIncludes {
-		names = append(names, n)
+	if len(done) != len(f.ParsedIncludes) {
+		incs = append(incs, L{hs("?unexpected ParsedIncludes entries"), L{}})
 	}
-	sort.Strings(names)
-	for _, n := range names {
-		a, sub := encTree(f.ParsedIncludes[n], seen)
-		incs[n] = map[string]interface{}{"name": f.ParsedIncludes[n].Name, "ast": a, "includes": sub}
-	}
-	return encFrugal(f), incs
+	return L{hs(f.Name), encFrugal(f), incs}
 }
 
 func parseFiles(q req) resp {
@@ -271,8 +276,7 @@ func parseFiles(q req) resp {
 	if err != nil {
 		return resp{Code: 1, Msg: err.Error()}
 	}
-	a, incs := encTree(f, map[*parser.Frugal]bool{})
-	return resp{Code: 0, Ast: a, Name: f.Name, Includes: incs}
+	return resp{Code: 0, Ast: encTree(f)}
 }
 
 func handle(q req) resp {
